@@ -47,6 +47,13 @@ func TestVerifC06Wire(t *testing.T) {
 		}(i, seed)
 	}
 	wg.Wait()
+	chrng := rep.Rand("chains")
+	for i, n := 0, verifkit.Pick(30, 300); i < n; i++ {
+		c06WireChain(rep, chrng)
+	}
+	if rep.ClassCount("long_chain_queries:9plus_hops") < 20 {
+		rep.Inconcl(fmt.Sprintf("only %d queries nine or more hops from the end of a chain", rep.ClassCount("long_chain_queries:9plus_hops")))
+	}
 	for _, cl := range []string{"rendered_values", "rendered_cname_then_upstream", "rendered_empty", "passed_through"} {
 		if rep.ClassCount(cl) < 20 {
 			rep.Inconcl(fmt.Sprintf("class %s seen only %d times", cl, rep.ClassCount(cl)))
@@ -272,6 +279,92 @@ func c06WireTable(rep *verifkit.Report, rng *rand.Rand, idx int) {
 				}
 			}
 			_ = others
+		}
+	}
+}
+
+// c06WireChain serves one loop-free chain of CNAME rewrites n0 -> ... -> nL of
+// a length around powers of two and small limits, ending in an address at nL
+// or leaving the table there, and asks for names at several distances from
+// the end.  Here the monitor knows the table's meaning by construction: the
+// reply must carry the CNAME to nL and nL's address without any upstream
+// traffic, or the upstream must be asked for nL exactly once.
+func c06WireChain(rep *verifkit.Report, rng *rand.Rand) {
+	special := []int{7, 8, 9, 10, 15, 16, 17, 31, 32, 33}
+	l := special[rng.Intn(len(special))]
+	if rng.Intn(3) == 0 {
+		l = 1 + rng.Intn(40)
+	}
+	names := make([]string, l+1)
+	for i := range names {
+		names[i] = fmt.Sprintf("h%02d.wchain.test", i)
+	}
+	var rws []*filtering.LegacyRewrite
+	var texts []string
+	for i := 0; i < l; i++ {
+		rws = append(rws, &filtering.LegacyRewrite{Domain: names[i], Answer: names[i+1]})
+	}
+	value := ""
+	if rng.Intn(3) > 0 {
+		value = fmt.Sprintf("10.7.%d.%d", rng.Intn(4), 1+rng.Intn(200))
+		rws = append(rws, &filtering.LegacyRewrite{Domain: names[l], Answer: value})
+	}
+	rng.Shuffle(len(rws), func(i, j int) { rws[i], rws[j] = rws[j], rws[i] })
+	for _, rw := range rws {
+		texts = append(texts, rw.Domain+" -> "+rw.Answer)
+	}
+	vs, err := vkStart(&vkConf{Mode: filtering.BlockingModeDefault, Protection: true, FilteringEnabled: true, Rewrites: rws})
+	if err != nil {
+		rep.Inconcl("server start: " + err.Error())
+
+		return
+	}
+	defer vs.stop()
+	vs.Up.Script = c01UpstreamScript
+	rep.Class("long_chain_tables")
+	asked := map[int]bool{}
+	for _, dist := range []int{l, l - 1, 1, 7, 8, 9, 10, 16, 17, 32, 33, 1 + rng.Intn(l)} {
+		i := l - dist
+		if i < 0 || i >= l || asked[i] {
+			continue
+		}
+		asked[i] = true
+		qname := dns.Fqdn(names[i])
+		vs.Up.take()
+		resp, xerr := vkExchange(vs, "127.0.0.1", rng.Intn(5) == 0, qname, dns.TypeA)
+		calls := vs.Up.take()
+		rep.Eval(true, strings.Join(texts, ";")+"|"+qname)
+		rep.Class("long_chain_queries")
+		if dist >= 9 {
+			rep.Class("long_chain_queries:9plus_hops")
+		}
+		w := map[string]any{"table": texts, "query": qname + " A", "hops_to_the_end_of_the_chain": dist,
+			"end_of_chain": names[l], "value_at_end": value, "upstream_calls": calls}
+		if xerr != nil || resp == nil {
+			w["error"] = fmt.Sprint(xerr)
+			rep.Violate("wire:no-reply", "no well-formed reply", w)
+
+			continue
+		}
+		w["reply"] = resp.String()
+		var addrs []string
+		cnameOK := false
+		for _, rr := range resp.Answer {
+			switch a := rr.(type) {
+			case *dns.CNAME:
+				cnameOK = cnameOK || (strings.EqualFold(rr.Header().Name, qname) && strings.EqualFold(a.Target, dns.Fqdn(names[l])))
+			case *dns.A:
+				ip, _ := netip.AddrFromSlice(a.A.To4())
+				addrs = append(addrs, ip.String())
+			}
+		}
+		switch {
+		case len(resp.Question) != 1 || resp.Question[0].Name != qname:
+			rep.Violate("wire:question-not-restored", "the reply's question is not the original question", w)
+		case value != "" && (len(calls) != 0 || len(addrs) != 1 || addrs[0] != value || !cnameOK):
+			rep.Violate("wire:long-chain-not-followed-to-its-end:value", "a loop-free chain of rewrites that ends in an address of the table was not answered with the CNAME to its last name and that address, without upstream traffic", w)
+		case value == "" && (len(calls) != 1 || !strings.EqualFold(calls[0].Name, dns.Fqdn(names[l])) || !cnameOK):
+			rep.Violate("wire:long-chain-not-followed-to-its-end:leaves-table", "a loop-free chain of rewrites that leaves the table was not resolved upstream at its last name", w)
 		}
 	}
 }
